@@ -130,10 +130,177 @@ def worker(items, extra, progress):
     return bad, diffs, dict(hist)
 
 
+# ----------------------------------------------------------------------------- list nesting (Model/Lists.lean)
+
+KINDS = "*#:;"
+
+
+def gen_block(rng):
+    """a block of list lines: (prefix, has-colon) - depth jumps, mixed kinds, repeated prefixes."""
+    lines = []
+    cur = ""
+    for _ in range(rng.randint(1, 9)):
+        k = rng.random()
+        if k < 0.3:
+            pass                                    # same prefix again
+        elif k < 0.5 and len(cur) < 4:
+            cur += rng.choice(KINDS)                # one deeper
+        elif k < 0.7:
+            cur = cur[:rng.randint(0, len(cur))]    # back up (possibly to no prefix)
+        elif k < 0.85 and cur:
+            cur = cur[:-1] + rng.choice(KINDS)      # other kind at the same depth
+        else:
+            cur = "".join(rng.choice(KINDS) for _ in range(rng.randint(0, 4)))
+        lines.append((cur, rng.random() < 0.3))
+    return lines
+
+
+def all_blocks(maxlines, maxpre):
+    import itertools
+
+    pres = [""]
+    for n in range(1, maxpre + 1):
+        pres += ["".join(t) for t in itertools.product(KINDS, repeat=n)]
+    kinds = [(p, c) for p in pres for c in (False, True)]
+    for n in range(1, maxlines + 1):
+        yield from (list(t) for t in itertools.product(kinds, repeat=n))
+
+
+def block_req(lines):
+    return " ".join(p + "." + ("c" if c else "n") for p, c in lines)
+
+
+def lists_real(lines):
+    """the real `ParseLines.analyze` on synthetic complex_line tokens -> the serialisation of Driver/Lists.lean."""
+    from mwlib.parser.refine import core
+
+    tok = core.Token
+
+    def mk(pre, i, colon):
+        ch = [tok(type=tok.t_text, text="w%d" % i)]
+        if colon:
+            ch += [tok(type=tok.t_special, text=":"), tok(type=tok.t_text, text="d%d" % i)]
+        return tok(type=tok.t_complex_line, lineprefix=pre, children=ch)
+
+    def ser(t):
+        if t.type == tok.t_complex_tag and t.tagname in ("ul", "ol"):
+            return "(" + {"ul": "*", "ol": "#"}[t.tagname] + "".join("[" + " ".join(ser(c) for c in it.children) + "]" for it in t.children) + ")"
+        if t.type == tok.t_complex_style and t.caption in (":", ";"):
+            if t.children and all(c.type in (tok.t_text, tok.t_special) for c in t.children):
+                return "D" + t.children[0].text[1:]
+            return "(" + t.caption + "".join("[" + " ".join(ser(c) for c in it.children) + "]" for it in t.children) + ")"
+        if t.type == tok.t_complex_node:
+            texts = [c.text for c in t.children if c.type == tok.t_text]
+            colon = any(c.type == tok.t_special and c.text == ":" for c in t.children)
+            return "L" + texts[0][1:] + ("c" if colon else "")
+        return "?" + repr(t)
+
+    toks = [mk(p, i, c) for i, (p, c) in enumerate(lines)]
+    pl = core.ParseLines.__new__(core.ParseLines)
+    pl.analyze(toks)
+    return " ".join(ser(t) for t in toks)
+
+
+def denoted_pieces(lines):
+    """what the markup denotes: (list ancestors, line, part) per piece of text, in source order."""
+    out = []
+    for i, (p, c) in enumerate(lines):
+        out.append((p, "w%d" % i))
+        if c:
+            out.append((p[:-1] + ":" if p.endswith(";") else p, "d%d" % i))
+    return out
+
+
+def lists_e2e(lines):
+    """the block as wikitext through the whole parser -> [(list ancestors, word)] in tree order."""
+    from . import doc_common as dc
+
+    text = "".join(p + " w%d" % i + (" : d%d" % i if c else "") + "\n" for i, (p, c) in enumerate(lines))
+    out = []
+
+    def walk(n, anc):
+        name = type(n).__name__
+        if name == "Text":
+            for w in (n.caption or "").split():
+                if w != ":":
+                    out.append((anc, w))
+            return
+        a = anc
+        if name == "ItemList":
+            a = anc + ("#" if n.numbered else "*")
+        elif name == "Style" and getattr(n, "caption", "") and set(n.caption) <= set(":;"):
+            a = anc + n.caption
+        for c in n.children:
+            walk(c, a)
+
+    walk(dc.parse(text), "")
+    return text, out
+
+
+def lists_worker(items, extra, progress):
+    import logging
+
+    from . import build_repo
+
+    build_repo.overlay_all()
+    logging.disable(logging.WARNING)
+    from .common import Driver
+
+    bad, diffs, hist = [], [], Counter()
+    reqs, preqs, meta = [], [], []
+    for i, it in enumerate(items):
+        if i % 256 == 0 and progress.stop_requested():
+            break
+        progress(i)
+        lines = gen_block(random.Random(it)) if isinstance(it, int) else [tuple(x) for x in it]
+        hist["blocks"] += 1
+        hist["lines-%d" % min(len(lines), 9)] += 1
+        hist["maxdepth-%d" % max(len(p) for p, _ in lines)] += 1
+        try:
+            real = lists_real(lines)
+        except Exception as e:  # noqa: BLE001
+            bad.append({"lines": lines, "text": "", "why": f"ParseLines.analyze raised {type(e).__name__}: {e}"})
+            continue
+        reqs.append("lists " + block_req(lines))
+        e2e = None
+        if isinstance(it, int) and it % 8 == 0:
+            hist["blocks-through-the-whole-parser"] += 1
+            text, got = lists_e2e(lines)
+            want = denoted_pieces(lines)
+            if got != want:
+                gw, ww = [w for _, w in got], [w for _, w in want]
+                if gw != ww:
+                    why = f"list block: text is {'re-ordered' if sorted(gw) == sorted(ww) else 'lost or duplicated'}: {gw} instead of {ww}"
+                else:
+                    a, b = next((a, b) for a, b in zip(want, got) if a != b)
+                    why = f"list block: the word {a[1]} sits under the lists {b[0]!r}, its markup denotes {a[0]!r}"
+                bad.append({"lines": lines, "text": text, "why": why})
+            e2e = " ".join("%s/%s/%s" % (p, w[1:], "t" if w[0] == "w" else "d") for p, w in got)
+            preqs.append(("lpaths " + block_req(lines), e2e, text))
+        meta.append((lines, real))
+    progress(len(items))
+    drv = Driver("lists")
+    for (lines, real), o in zip(meta, drv.ask(reqs)):
+        if real != o:
+            diffs.append({"stream": "ParseLines.analyze", "lines": lines, "impl": real, "model": o})
+    for (rq, e2e, text), o in zip(preqs, drv.ask([r for r, _, _ in preqs])):
+        if e2e != o:
+            diffs.append({"stream": "whole parser vs model paths", "text": text, "impl": e2e, "model": o})
+    return bad, diffs, dict(hist)
+
+
 def replay(chk, data):
     from . import build_repo
 
     build_repo.overlay_all()
+    if "lines" in data:
+        lines = [tuple(x) for x in data["lines"]]
+        text, got = lists_e2e(lines)
+        ok = got == denoted_pieces(lines)
+        chk.say(f"replay: {text!r} -> {got}" + ("" if ok else f" instead of {denoted_pieces(lines)}"))
+        if not ok:
+            chk.violation("C02 violated: " + data.get("why", "list block mis-parsed"), data)
+        return
     if "seed" in data and data.get("text"):
         why, text, lang = check_doc(data["seed"])
         chk.say(f"replay: {why or 'structure as denoted'}")
@@ -172,6 +339,17 @@ def run(chk: common.Check):
         hist.update(h)
     for item, kind, detail in c:
         bad.append({"seed": item, "text": "", "why": f"{kind}: {detail}"})
+    # list nesting: every block of <= 2 (thorough: 3) lines with prefixes of length <= 2, then random longer blocks
+    litems = [b for b in all_blocks(3 if tier == "thorough" else 2, 2)]
+    litems += [chk.seed * 10_000_000 + 8_000_000 + i for i in range(40000 if tier == "thorough" else 6000)]
+    lr, lc = guard.guarded_run(str(chk.mkscratch()), "harness.c02:lists_worker", litems, nproc=16, hard_timeout=120)
+    lhist = Counter()
+    for b, d, h in lr:
+        bad += b
+        diffs += d
+        lhist.update(h)
+    for item, kind, detail in lc:
+        bad.append({"lines": item if not isinstance(item, int) else gen_block(random.Random(item)), "text": "", "why": f"{kind}: {detail}"})
     chk.coverage.update({
         "evaluations": n,
         "distinct_nontrivial": hist.get("documents", 0),
@@ -180,7 +358,12 @@ def run(chk: common.Check):
                 "small/big, labelled and unlabelled internal links, external links, references, preformatted lines; random blank lines, "
                 "one-cell-per-line vs || rows), parsed in one of the 12 languages with or without a wiki database; every word unique. "
                 "1/4 heading sequences of 1-12 headings with random levels 1-6 (level jumps) vs Model.nest. non-trivial = documents",
-        "traces_validated_against_impl": hist.get("heading-sequences", 0),
+        "traces_validated_against_impl": hist.get("heading-sequences", 0) + lhist.get("blocks", 0),
+        "list_blocks": dict(lhist),
+        "list_rule": "blocks of list lines (prefix over * # : ;, with or without ' : description'): every block of <= 2 (thorough 3) lines "
+                     "with prefixes of length <= 2, then random blocks of 1-9 lines, depth <= 4 with jumps; the real ParseLines.analyze on "
+                     "synthetic line tokens vs Model.analyze (exact tree), and 1/8 of the random blocks as wikitext through the whole "
+                     "parser: (list ancestors, word) in tree order vs what the prefixes denote (oracle) and vs the model's paths",
         "correspondence_differences": len(diffs),
         "histogram": dict(hist),
     })
